@@ -148,6 +148,20 @@ def generate(rng, tier):
             bom = "\ufeff" if rt.startswith("\ufeff") else ""
             files[t.root] = bom + '#[path = "%s"]\nmod p_own;\n' % os.path.basename(own) + rt.lstrip("\ufeff")
             srcs += [own]
+    elif k < 42:
+        # a module file that is a symbolic link to another module file of the same crate: two directory entries, one
+        # inode; both are visited (whichever comes first)
+        rd = os.path.dirname(t.root)
+        a, b = rng.choice([("p_aalias.rs", "p_breal.rs"), ("p_zalias.rs", "p_breal.rs")])
+        la, lb = os.path.join(rd, a), os.path.join(rd, b)
+        if la not in files and lb not in files:
+            files[lb] = body(rng)
+            files[la] = {"symlink": b}
+            rt = files[t.root]
+            bom = "\ufeff" if rt.startswith("\ufeff") else ""
+            files[t.root] = bom + '#[path = "%s"]\nmod p_alias;\n#[path = "%s"]\nmod p_real;\n' % (a, b) + rt.lstrip("\ufeff")
+            srcs += [la, lb]
+            linked[la] = lb
     twin_first = bool(extra_roots) and k < 18 and rng.chance(40)
     extra_args = rng.choice([[], [], ["-q"], ["--config", "max_width=%d" % rng.choice([60, 80, 100])]])
     return {
@@ -258,6 +272,12 @@ def execute(case):
                 cur = core.read_rel(sc.root, f)
                 bk = core.read_rel(sc.root, _stem(f) + ".bk")
                 suffix = "|stem-collision" if f in collide else "|respelled-twice" if f in respelled else "|own-name-is-scratch-name" if f in ownname else ""
+                if f in linked and linked[f] in srcs:
+                    # a link to another module file of the crate: its .bk is the moved link, which still points to the
+                    # (rewritten) target; the bytes are safe if the target's own backup holds them
+                    tbk = core.read_rel(sc.root, _stem(linked[f]) + ".bk")
+                    if orig[f] in (cur, bk, tbk):
+                        continue
                 if cur != orig[f] and bk != orig[f]:
                     v.add("C20:original-lost" + suffix, "%s: neither %s nor its .bk holds the original; %s" % (tag, f, det), file=f)
                 if cur is not None and cur not in (orig[f], fmt[f], fmt_alt.get(f, fmt[f])):
@@ -275,7 +295,8 @@ def execute(case):
                     suffix = "|stem-collision" if f in collide else "|respelled-twice" if f in respelled else "|own-name-is-scratch-name" if f in ownname else ""
                     if core.read_rel(sc.root, f) != fmt[f]:
                         v.add("C20:success-file-not-formatted" + suffix, "%s: %s" % (det, f), file=f)
-                    if core.read_rel(sc.root, _stem(f) + ".bk") != orig[f]:
+                    if core.read_rel(sc.root, _stem(f) + ".bk") != orig[f] and not (
+                            f in linked and linked[f] in srcs and core.read_rel(sc.root, _stem(linked[f]) + ".bk") == orig[f]):
                         v.add("C20:success-bk-not-original" + suffix, "%s: %s.bk" % (det, _stem(f)), file=f)
                     if core.read_rel(sc.root, _stem(f) + ".tmp") is not None and (_stem(f) + ".tmp") not in world["files"]:
                         v.add("C20:success-tmp-left", "%s: %s.tmp" % (det, _stem(f)), file=f)
